@@ -33,6 +33,7 @@ class Func:
     def __init__(self, qualname, node, mod, parent=None, cls=None):
         self.qualname, self.node, self.mod, self.parent, self.cls = qualname, node, mod, parent, cls
         self.name = node.name
+        self.inlined_everywhere = bool(getattr(node, '_sa_inlined_everywhere', False))     # private helper whose every use was inlined by normalize.py
 
     @property
     def loc(self):
